@@ -490,7 +490,7 @@ package stackage
 
 //@ func Cond
 //@ tags C06
-//@ safety C06,C08
+//@ safety C06,C08,C16
 //@ let ok1 := acceptOp(op)
 //@ let ok2 := acceptEx(false, nil, ex)
 //@ ensures[C06:Cond.init] c != nil && cwf(c) && fresh(c)
@@ -1306,7 +1306,7 @@ package stackage
 //@ let go := r != nil && isStackLike(dest) && d != nil && !bit(F_nodeConfig_opt[cfgOf(d)], 0x0080)
 //@ ensures[C15,C12:Transfer.ok] ok ==> go && len(hdr(d)) == dl + n && (forall k :: 0 <= k && k < n ==> slot(d, dl + k) == old(slot(r, k + 1))) && (forall k :: 0 <= k && k < dl ==> slot(d, k) == old(slot(d, k)))
 //@ ensures[C15:Transfer.full] go && cp != 0 && n > cp - dl ==> !ok && hdr(d) == old(hdr(d)) && Mem_Val[arr(hdr(d))] == old(Mem_Val[arr(hdr(d))])
-//@ ensures[C15,C12:Transfer.refused] !go ==> !ok && (d != nil ==> hdr(d) == old(hdr(d)) && Mem_Val[arr(hdr(d))] == old(Mem_Val[arr(hdr(d))]))
+//@ ensures[C15,C12,C09:Transfer.refused] !go ==> !ok && (d != nil ==> hdr(d) == old(hdr(d)) && Mem_Val[arr(hdr(d))] == old(Mem_Val[arr(hdr(d))]))
 //@ ensures[C15:Transfer.src] r != nil ==> hdr(r) == old(hdr(r)) && Mem_Val[arr(hdr(r))] == old(Mem_Val[arr(hdr(r))]) && cfgOf(r) == old(cfgOf(r))
 //@ modifies Cell_stack[d], Mem_Val[old(arr(hdr(d)))], Mem_Val[fresh], F_nodeConfig_ldr[cfgOf(d)], F_nodeConfig_err[cfgOf(d)], G_held, G_calls_len, G_calls_fn, G_calls_arg
 
